@@ -85,15 +85,11 @@ type report struct {
 	Problems []string `json:"problems"`
 }
 
-func main() {
-	set := flag.String("set", "C09", "scenario set")
-	rounds := flag.Int("rounds", 100, "free runs per scenario")
-	flag.Parse()
-	enc := json.NewEncoder(os.Stdout)
-	for _, sc := range scenarios(*set) {
+func sessionSet(set string, rounds int, enc *json.Encoder) {
+	for _, sc := range scenarios(set) {
 		rep := report{Scenario: sc.Name}
 		seen := map[string]bool{}
-		for r := 0; r < *rounds; r++ {
+		for r := 0; r < rounds; r++ {
 			// a request written into a connection the server has already closed is lost for good (no
 			// retransmission in the client): such rounds end at the deadline, so it is short there
 			limit := 1500 * time.Millisecond
@@ -106,29 +102,95 @@ func main() {
 				rep.Timeouts++ // no wall-clock oracle: a slow or lost call is not judged here
 				continue
 			}
-			add := func(s string) {
-				if !seen[s] {
-					seen[s] = true
-					rep.Wrong = append(rep.Wrong, s)
-				}
-			}
-			if x.ConnPanic != "" {
-				add("connect-panic|" + x.ConnPanicFrame)
-			} else if x.ConnErr != nil {
-				add("connect-error|" + x.ConnErr.Error())
-			}
-			for _, res := range x.Results {
-				if why := sess.CheckResult(res); why != "" && (x.ConnErr == nil && x.ConnPanic == "") {
-					add(fmt.Sprintf("call|%s|kind=%d", why, res.Call.Kind))
-				}
-			}
-			for _, p := range x.Srv.Problems {
-				if !seen["p:"+p] && len(rep.Problems) < 5 {
-					seen["p:"+p] = true
-					rep.Problems = append(rep.Problems, p)
-				}
-			}
+			judge(&rep, seen, sc, x)
 		}
 		enc.Encode(rep)
+	}
+}
+
+func judge(rep *report, seen map[string]bool, sc *sess.Scenario, x *sess.World) {
+	add := func(s string) {
+		if !seen[s] {
+			seen[s] = true
+			rep.Wrong = append(rep.Wrong, s)
+		}
+	}
+	if x.ConnPanic != "" {
+		add("connect-panic|" + x.ConnPanicFrame)
+	} else if x.ConnErr != nil {
+		add("connect-error|" + x.ConnErr.Error())
+	}
+	for _, res := range x.Results {
+		if why := sess.CheckResult(res); why != "" && (x.ConnErr == nil && x.ConnPanic == "") {
+			add(fmt.Sprintf("call|%s|kind=%d", why, res.Call.Kind))
+		}
+	}
+	for _, p := range x.Srv.Problems {
+		if !seen["p:"+p] && len(rep.Problems) < 5 {
+			seen["p:"+p] = true
+			rep.Problems = append(rep.Problems, p)
+		}
+	}
+}
+
+// multiSet: several clients at once in one process (what they share is the library's package-level state)
+func multiSet(name string, mk func() []*sess.Scenario, rounds int, limit time.Duration, enc *json.Encoder) {
+	rep := report{Scenario: name}
+	seen := map[string]bool{}
+	for r := 0; r < rounds; r++ {
+		scs := mk()
+		ws, timedOut := sess.RunFreeMulti(scs, int64(r+1), limit)
+		rep.Rounds++
+		if timedOut {
+			rep.Timeouts++
+			continue
+		}
+		for i, x := range ws {
+			judge(&rep, seen, scs[i], x)
+		}
+	}
+	enc.Encode(rep)
+}
+
+func main() {
+	set := flag.String("set", "C09", "scenario set")
+	rounds := flag.Int("rounds", 100, "free runs per scenario")
+	flag.Parse()
+	enc := json.NewEncoder(os.Stdout)
+	all := []rpcsrv.Kind{rpcsrv.KObj, rpcsrv.KBool, rpcsrv.KVecInt, rpcsrv.KVecObj, rpcsrv.KErr}
+	opt := rpcsrv.Options{Reorder: true, Container: true, Gzip: true}
+	switch *set {
+	case "C09", "C10", "C11", "C16":
+		sessionSet(*set, *rounds, enc)
+		if *set == "C09" || *set == "C10" {
+			multiSet("two clients in one process, 2 callers x 2 calls each, gzip / containers", func() []*sess.Scenario {
+				return []*sess.Scenario{
+					{Name: "A", Salt: 9, Opt: opt, Callers: callers(2, 2, all, false)},
+					{Name: "B", Salt: 12, Opt: opt, Callers: callers(2, 2, all, false)},
+				}
+			}, (*rounds+1)/2, 3*time.Second, enc)
+		}
+	case "C06", "C07":
+		multiSet("two fresh clients exchange keys at the same time (different RSA keys, nonces, pq)", func() []*sess.Scenario {
+			a, b := hs.Base(), hs.Base()
+			a.Pad, b.Pad = 0, 0
+			b.Key, b.P, b.Q, b.ServerNonce = hs.Key(1), 1073741789, 1073741827, hs.Nonce(1, 5)
+			return []*sess.Scenario{
+				{Name: "A", Fresh: &a, Callers: callers(1, 1, all, false)},
+				{Name: "B", Fresh: &b, Callers: callers(1, 1, all, false)},
+			}
+		}, *rounds/10+2, 12*time.Second, enc)
+	case "C01", "C02", "C15":
+		codecSet(*rounds, enc)
+	case "C03", "C04", "C05":
+		cryptoSet(*rounds, enc)
+	case "C08":
+		modeSet(*rounds, enc)
+	case "C17":
+		errorsSet(*rounds, enc)
+	case "C20":
+		linksSet(*rounds, enc)
+	case "C18", "C19":
+		srpSet(*rounds, enc)
 	}
 }
